@@ -878,6 +878,7 @@ func init() {
 			setRes(st, in, ex.freshVar("timer.stop", BoolSort))
 			return true
 		},
+		"runtime.SetFinalizer": nop,
 		"(*time.Ticker).Stop":  nop,
 		"(*time.Ticker).Reset": nop,
 		"time.Sleep": func(ex *Exec, st *State, args []Value, in *ssa.Call, pos token.Pos) bool {
